@@ -28,9 +28,23 @@ What is transcribed:
 * `BackProjectorByBin::{set_up, start_accumulating_in_new_target, back_project(ProjData), back_project(RelatedViewgrams),
   get_output, back_project(image, proj_data, ..)}` (BackProjectorByBin.cxx:71, 306, 186, 260, 327, 115): `BackProj.*`.
 
+* `ForwardProjectorByBin::set_input` with its pre-data-processor (ForwardProjectorByBin.cxx:312) and
+  `forward_project(proj_data, image, …)` = `set_input; forward_project` (:100): `setInput`, `fwdProject`;
+  `BackProjectorByBin::get_output` with its post-data-processor (BackProjectorByBin.cxx:327-360): `BackProj.getOutputPost`,
+  `BackProj.backIntoPost`.  A processor is a function on the voxel array (`Proc`); what it computes is the processor's
+  business, where and on which copy it is applied is the projector's.
+
+The geometry `G : PDGeom` and the layout `idx` are those of the **projection data passed to the call**
+(`proj_data.get_proj_data_info_sptr()`, `viewgrams.get_min_axial_pos_num()` …), which may be smaller than the geometry the
+projectors were set up with (`*_proj_data_info_sptr >= proj_data_info`: fewer segments, trimmed axial / tangential ranges);
+`rows` and `Syms` belong to the set-up geometry (the matrix and its symmetries), the related-position lists `rel` are what
+`get_related_bins_factorised` returns for the ranges of the data passed in.  The driver executes `fwdSubset`/`bckSubset` in
+both situations (`fwd`/`bsub` and `fwd2`/`bsub2`).
+
 Not modelled: the on-the-fly projector `ForwardProjectorByBinUsingRayTracing` (hand-optimised Siddon with in-line symmetries;
 it shares no code with the matrix — compared on the implementation by the harness only), float rounding (the driver returns the exact value, the magnitude `Σ|terms|` and the number of terms;
-`checks/c04.py` applies the forward error bound), OpenMP, the pre/post data processors (null in the harness), the
+`checks/c04.py` applies the forward error bound), OpenMP, what a data processor computes (the harness installs its own
+exact-arithmetic processors: scaling, a symmetric 3-point stencil, one that fails), the
 geometry/modality `check()`s (error paths exercised by the harness as `err` only), the ray tracing itself.
 Core Lean only.
 -/
@@ -251,6 +265,44 @@ def BackProj.getOutput (s : BackProj K) : Array K := s.density
 def BackProj.backInto (cache : Bool) (s : BackProj K) (y : Array K) (i n : Int) : BackProj K × Array K :=
   let s' := BackProj.backSubset rows ig idx G S cache (BackProj.start s) y i n
   (s', s'.getOutput)
+
+/-! ### pre- and post- data processors -/
+
+/-- a `DataProcessor<DiscretisedDensity<3,float>>` seen as a function on the voxel array;
+    `none` = `apply` returned `Succeeded::no` -/
+abbrev Proc (K : Type) := Array K → Option (Array K)
+
+/-- `ForwardProjectorByBin::set_input(density)` (ForwardProjectorByBin.cxx:312):
+    `_density_sptr.reset(density.clone()); if (!is_null_ptr(_pre_data_processor_sptr)) _pre_data_processor_sptr->apply(*_density_sptr)`
+    — the processor works on the clone, the caller's image is not touched; `pre = none` is the null pointer;
+    result `none` = `throw std::runtime_error("… Pre-forward-projection data processor failed.")`. -/
+def setInput (pre : Option (Proc K)) (img : Array K) : Option (Array K) :=
+  match pre with
+  | none => some img
+  | some p => p img
+
+/-- `ForwardProjectorByBin::forward_project(proj_data, image, subset_num, num_subsets, zero)` (ForwardProjectorByBin.cxx:100)
+    = `set_input(image); forward_project(proj_data, subset_num, num_subsets, zero);` -/
+def fwdProject (pre : Option (Proc K)) (cache : Bool) (img d : Array K) (i n : Int) (zero : Bool) : Option (Array K) :=
+  (setInput pre img).bind fun x => fwdSubset rows ig idx G S cache x d i n zero
+
+/-- `BackProjectorByBin::get_output(density)` (BackProjectorByBin.cxx:327): copy `_density_sptr` into `density`, then, if a
+    post-processor is set, `_post_data_processor_sptr->apply(density)` — applied to the copy handed out, the accumulation
+    target itself keeps the unprocessed sum (the function is `const`); `none` = the processor failed (`throw`). -/
+def BackProj.getOutputPost (post : Option (Proc K)) (s : BackProj K) : Option (Array K) :=
+  match post with
+  | none => some s.density
+  | some p => p s.density
+
+/-- `back_project(image, proj_data, subset_num, num_subsets)` with a post-processor:
+    start; back_project; get_output (the processor acts in `get_output`) -/
+def BackProj.backIntoPost (post : Option (Proc K)) (cache : Bool) (s : BackProj K) (y : Array K) (i n : Int) :
+    BackProj K × Option (Array K) :=
+  let s' := BackProj.backSubset rows ig idx G S cache (BackProj.start s) y i n
+  (s', s'.getOutputPost post)
+
+/-- the harness' scaling processor: every voxel times `c` -/
+def procScale (c : K) : Proc K := fun x => some (x.map fun v => c * v)
 
 /-! ### inner products and linear combinations used to state the property -/
 
